@@ -57,20 +57,22 @@ func init() {
 }
 
 // CfgEdit enables every local-index plugin and makes account A a super manager.
-func CfgEdit(s string) string {
-	s = strings.Replace(s, "[exec]\nenableStat=false\nenableMVCC=false\n", "[exec]\nenableStat=true\nenableMVCC=true\nenableAddrFeeIndex=true\n", 1)
+func CfgEdit(s string) string { return cfgEdit(s, true) }
+
+func cfgEdit(s string, mvcc bool) string {
+	s = strings.Replace(s, "[exec]\nenableStat=false\nenableMVCC=false\n", fmt.Sprintf("[exec]\nenableStat=true\nenableMVCC=%v\nenableAddrFeeIndex=true\n", mvcc), 1)
 	s = strings.Replace(s, "superManager=[\n", "superManager=[\n    \""+Addrs[A]+"\",\n", 1)
 	return s
 }
 
 // CfgCheck reports what of the wanted configuration is missing.
-func CfgCheck(cfg *types.Chain33Config) string {
+func CfgCheck(cfg *types.Chain33Config, mvcc bool) string {
 	e := cfg.GetModuleConfig().Exec
 	var miss []string
 	if !e.EnableStat {
 		miss = append(miss, "enableStat")
 	}
-	if !e.EnableMVCC {
+	if e.EnableMVCC != mvcc {
 		miss = append(miss, "enableMVCC")
 	}
 	if !e.EnableAddrFeeIndex {
@@ -96,19 +98,47 @@ type Env struct {
 	Trunk   []*types.Block
 	Snap    vnode.Snapshot
 	CfgEdit func(string) string
-	nonce   int64
+	// MVCC reports whether the mvcc plugin ([exec] enableMVCC) is on. It is switched off when the
+	// tree under test cannot execute a block at height 1 with it (see MVCCNote).
+	MVCC     bool
+	MVCCNote string
+	nonce    int64
 }
 
 // Options of NewEnv.
 type Options struct {
-	Extra func(string) string // further configuration edits (applied after CfgEdit)
+	Extra  func(string) string // further configuration edits (applied after CfgEdit)
+	NoMVCC bool                // do not even try the mvcc plugin
 }
 
 // NewEnv starts the producer, builds the trunk (funding A, B, D, E; C stays unseen) and snapshots it.
+// The mvcc plugin is enabled when the tree can execute blocks with it, otherwise the environment is
+// rebuilt without it.
 func NewEnv(opt Options) (*Env, error) {
-	e := &Env{nonce: 1000}
+	if !opt.NoMVCC {
+		e, err := newEnv(opt, true)
+		if err == nil {
+			return e, nil
+		}
+		if e == nil || !strings.Contains(err.Error(), "trunk block 1: ") {
+			return nil, err
+		}
+		note := fmt.Sprintf("[exec] enableMVCC=true: %v (stateDB cannot find version 0 of the genesis state: its record is an empty value, which the transactional local DB reads as deleted); mvcc plugin switched off", err)
+		e.P.Close()
+		e.P.Forget()
+		e, err = newEnv(opt, false)
+		if e != nil {
+			e.MVCCNote = note
+		}
+		return e, err
+	}
+	return newEnv(opt, false)
+}
+
+func newEnv(opt Options, mvcc bool) (*Env, error) {
+	e := &Env{nonce: 1000, MVCC: mvcc}
 	e.CfgEdit = func(s string) string {
-		s = CfgEdit(s)
+		s = cfgEdit(s, mvcc)
 		if opt.Extra != nil {
 			s = opt.Extra(s)
 		}
@@ -116,7 +146,7 @@ func NewEnv(opt Options) (*Env, error) {
 	}
 	e.P = vnode.New(vnode.Options{CfgEdit: e.CfgEdit})
 	e.Cfg = e.P.Cfg
-	if m := CfgCheck(e.Cfg); m != "" {
+	if m := CfgCheck(e.Cfg, mvcc); m != "" {
 		return nil, fmt.Errorf("configuration edit did not take: %s", m)
 	}
 	if !e.P.WaitHeight(0, 10*time.Second) {
